@@ -132,7 +132,7 @@ func nodeStructs() ([]string, map[string][]nodeField) {
 }
 
 // dispatchKinds reads a `switch n := node.(type)` with one `*ast.X` per case and a panicking default.
-func dispatchKinds(file, recv, fn, subject, prefix string) []string {
+func dispatchKinds(file, recv, fn, subject, prefix string) ([]string, bool) {
 	f := parseFile(file)
 	fd := funcDecl(f, recv, fn)
 	var sw *ast.TypeSwitchStmt
@@ -152,15 +152,13 @@ func dispatchKinds(file, recv, fn, subject, prefix string) []string {
 		refuse(sw.Pos(), "%s: type switch on %s, expected %s", fn, subj, subject)
 	}
 	var out []string
-	hasDefault := false
+	hasDefault, defaultPanics := false, false
 	for _, cc := range sw.Body.List {
 		c := cc.(*ast.CaseClause)
 		if c.List == nil {
-			if len(c.Body) == 1 && strings.HasPrefix(exprStr(c.Body[0]), "panic(") {
-				hasDefault = true
-				continue
-			}
-			refuse(c.Pos(), "%s: default case is not a panic", fn)
+			hasDefault = true
+			defaultPanics = len(c.Body) == 1 && strings.HasPrefix(exprStr(c.Body[0]), "panic(")
+			continue
 		}
 		if len(c.List) != 1 {
 			refuse(c.Pos(), "%s: case with %d types", fn, len(c.List))
@@ -172,9 +170,9 @@ func dispatchKinds(file, recv, fn, subject, prefix string) []string {
 		out = append(out, strings.TrimPrefix(t, "*"+prefix))
 	}
 	if !hasDefault {
-		refuse(sw.Pos(), "%s: no panicking default", fn)
+		refuse(sw.Pos(), "%s: no default case", fn)
 	}
-	return out
+	return out, defaultPanics
 }
 
 func leanKinds(ks []string) string {
@@ -234,10 +232,10 @@ func genAstShape() string {
 	fmt.Fprintf(&sb, "/-- ast.Patch(%s) -/\ndef astPatchBody : List String := %s\n\n", norm(p.Type.Params), leanStrList(stmtStrings(p.Body)))
 
 	// dispatch lists
-	fmt.Fprintf(&sb, "/-- the cases of checker.visit's type switch (default panics) -/\ndef checkerDispatch : List NK := %s\n\n",
-		leanKinds(dispatchKinds("checker/checker.go", "*visitor", "visit", "node", "ast.")))
-	fmt.Fprintf(&sb, "/-- the cases of compiler.compile's type switch (default panics) -/\ndef compilerDispatch : List NK := %s\n\n",
-		leanKinds(dispatchKinds("compiler/compiler.go", "*compiler", "compile", "node", "ast.")))
+	chk, chkPanics := dispatchKinds("checker/checker.go", "*visitor", "visit", "node", "ast.")
+	fmt.Fprintf(&sb, "/-- the cases of checker.visit's type switch -/\ndef checkerDispatch : List NK := %s\n/-- its default branch panics (false: it records an error) -/\ndef checkerDefaultPanics : Bool := %v\n\n", leanKinds(chk), chkPanics)
+	cmp, cmpPanics := dispatchKinds("compiler/compiler.go", "*compiler", "compile", "node", "ast.")
+	fmt.Fprintf(&sb, "/-- the cases of compiler.compile's type switch -/\ndef compilerDispatch : List NK := %s\ndef compilerDefaultPanics : Bool := %v\n\n", leanKinds(cmp), cmpPanics)
 
 	// expr.Compile
 	ef := parseFile("expr.go")
@@ -383,16 +381,29 @@ func genWalk() string {
 	if norm(fd.Type.Params) != "(node *Node)" {
 		refuse(fd.Pos(), "walker.walk: parameters %s", norm(fd.Type.Params))
 	}
-	if len(fd.Body.List) != 2 {
-		refuse(fd.Pos(), "walker.walk: body is not `Enter; type switch` (%d statements)", len(fd.Body.List))
+	// optional leading guard `if *node == nil { return }`: a nil slot is not entered
+	nilGuard := false
+	body := fd.Body.List
+	if len(body) == 3 {
+		if is, ok := body[0].(*ast.IfStmt); ok && is.Init == nil && is.Else == nil && norm(is.Cond) == "*node == nil" &&
+			len(is.Body.List) == 1 && norm(is.Body.List[0]) == "return" {
+			nilGuard = true
+			body = body[1:]
+		} else {
+			refuse(body[0].Pos(), "walker.walk: leading statement is not `if *node == nil { return }`: %s", norm(body[0]))
+		}
 	}
-	first := norm(fd.Body.List[0])
+	if len(body) != 2 {
+		refuse(fd.Pos(), "walker.walk: body is not `[nil guard;] Enter; type switch` (%d statements)", len(fd.Body.List))
+	}
+	fmt.Fprintf(&sb, "/-- walker.walk starts with `if *node == nil { return }` -/\ndef walkNilGuard : Bool := %v\n", nilGuard)
+	first := norm(body[0])
 	if first != "w.visitor.Enter(node)" {
-		refuse(fd.Body.List[0].Pos(), "walker.walk: first statement is %s, not w.visitor.Enter(node)", first)
+		refuse(body[0].Pos(), "walker.walk: first statement (after the nil guard) is %s, not w.visitor.Enter(node)", first)
 	}
-	sw, ok := fd.Body.List[1].(*ast.TypeSwitchStmt)
+	sw, ok := body[1].(*ast.TypeSwitchStmt)
 	if !ok {
-		refuse(fd.Body.List[1].Pos(), "walker.walk: second statement is not a type switch")
+		refuse(body[1].Pos(), "walker.walk: statement after Enter is not a type switch")
 	}
 	v, subj := typeSwitchParts(sw)
 	if subj != "(*node)" {
